@@ -926,8 +926,8 @@ def rule_zskip_kind(ctx):
             r0 = rhs_
             while r0[0] == 'cast':
                 r0 = r0[2]
-            if r0[0] == 'call' and r0[1].endswith('::end') and _contains(r0, ('field', 'data', ('field', 'super', ('this',)))):
-                continue        # `it = data.end()`: the exhausted state
+            if r0[0] == 'call' and r0[1].endswith('::end') and any(s_[0] == 'field' and s_[1] == 'data' and any(z_ in (('field', 'super', ('this',)), ('param', 'super')) for z_ in _subterms(s_)) for s_ in _subterms(r0)):
+                continue        # `it = data.end()`: the exhausted state (through the member or the constructor parameter `super`)
             k = kinds.kind_of_term(rhs_)
             zmin = ('field', 'zmin', ('this',))
             ok = bool(k) and k[0] == 'FIRST_GE' and k[1] == zmin
